@@ -1028,7 +1028,29 @@ func c19RunImpl(cs c19Case) c19ImplRun {
 	return run
 }
 
+// failures by kind and class (both parts of the check are always run, so that the evidence shows
+// which part sees a defect)
+var (
+	c19FailMu    sync.Mutex
+	c19FailCount = map[string]int{}
+)
+
+func c19Fails(kind string) int {
+	c19FailMu.Lock()
+	defer c19FailMu.Unlock()
+	n := 0
+	for k, v := range c19FailCount {
+		if len(k) > len(kind) && k[:len(kind)+1] == kind+"/" {
+			n += v
+		}
+	}
+	return n
+}
+
 func c19Fail(c *vf.Ctx, kind, class, what string, cs c19Case, i int, observed, required string) {
+	c19FailMu.Lock()
+	c19FailCount[kind+"/"+class]++
+	c19FailMu.Unlock()
 	// keep the replay small: the history up to and including the failing op
 	small := cs
 	if i+1 < len(cs.Ops) {
